@@ -48,7 +48,8 @@ Requests (answers):
         -> handled <bcast> <built hex|none> <ended none|ok|err> | ignored | noroute | panic
            <bcast> = `-` or `idx:shard:proof:root:sig:nonce:committee:publisher` joined by `+`
            every outcome is followed by ` | <tasks> <publisherTasks[publisher of the unit]>` (the task
-           counters after the step; noroute also when a bound of `increaseTasks` is reached)
+           counters after the step; noroute also when a bound of `increaseTasks` is reached), then
+           ` <fin 0|1> <live>`: the unit's key is in the finalized cache; number of live subprocessors
   pexpire <committee> <publisher> <root> <nonce> -> expired | none, then ` | <tasks> <publisherTasks>`
            (the subprocessor of this message key reaches its time-out)
   leafpre <hex>                      -> <hex>   the bytes merkleLeafHash hands to SHA-256
@@ -255,10 +256,16 @@ def runPStep (s : St) (sc : Sched) (sigok hasKey : Bool) (u : PUnit HTerm) (send
   -- the reason of a refusal, from `refusalOf` (createSubprocessor's checks in the code's order)
   let why := match out with
     | .noRoute => ":" ++ (match refusalOf s.bounds s.pcfg (sigOracle sigok hasKey) sc s.proc u with
+        | some .publisherTasks =>
+          -- both bounds reached: the code reports the publisher's (checked first); which of two
+          -- simultaneously true reasons is named is not compared (`a+b`)
+          if s.proc.tasks == s.bounds.maxWorkers then "publisher-tasks+max-tasks" else "publisher-tasks"
         | some r => r.name | none => "?")
     | _ => ""
   ({ s with proc := p', pending := none },
-    procOutStr out ++ why ++ " | " ++ toString p'.tasks ++ " " ++ toString (p'.ptasks (keyOf u).publisher))
+    procOutStr out ++ why ++ " | " ++ toString p'.tasks ++ " " ++ toString (p'.ptasks (keyOf u).publisher) ++
+      -- the store after the step: is the unit's key in the finalized cache; number of live subprocessors
+      " " ++ (if p'.core.finalized.contains (keyOf u) then "1" else "0") ++ " " ++ toString p'.core.subs.length)
 
 def wireErr : WireErr → String
   | .noShards => "no-shards" | .shardLen => "shard-len" | .rootLen => "root-len"
@@ -480,7 +487,8 @@ def step (s : St) (line : String) : St × String :=
       let key : MsgKey HTerm := ⟨committee, publisher, root, nonce⟩
       let live := (s.proc.core.findSub key).isSome
       let p' := tprocExpire s.proc key
-      ({ s with proc := p' }, (if live then "expired" else "none") ++ " | " ++ toString p'.tasks ++ " " ++ toString (p'.ptasks publisher))
+      ({ s with proc := p' }, (if live then "expired" else "none") ++ " | " ++ toString p'.tasks ++ " " ++ toString (p'.ptasks publisher) ++
+        " " ++ (if p'.core.finalized.contains key then "1" else "0") ++ " " ++ toString p'.core.subs.length)
     | _, _, _, _ => (s, "bad-op")
   | ["pstep", sigok, committee, publisher, root, proof, sig, idx, shards, nonce, sender] =>
     match s.sched, hexToBytes? committee, hexToBytes? publisher, term? root, terms? proof,
